@@ -193,14 +193,14 @@ class Gen:
         r = self.r
         it = r.choice(["it_list", "it_tuple", "it_str", "it_empty", "it_gen()", "range(%d)" % r.randint(0, 4), "it_one",
                        # iterables whose text holds colons, brackets and a lambda (the line ends in a colon of its own)
-                       "it_list[1:]", "it_tuple[::2]", "{'p': 1, 'q': 2}", "sorted(it_list, key=lambda v: -v)", "'a:b'"])
+                       "it_side()", "it_side()", "it_fail()", "it_list[1:]", "it_tuple[::2]", "{'p': 1, 'q': 2}", "sorted(it_list, key=lambda v: -v)", "'a:b'"])
         var = "x%d" % self.uid()
         use_loop = r.random() < 0.6
         target = var
         if it in ("it_list", "it_tuple") and r.random() < 0.2:
             target = "(%s)" % var  # parenthesised target
         self.ctl("for %s in %s:" % (target, it))
-        sized = not it.startswith("it_gen")
+        sized = not it.startswith(("it_gen", "it_side", "it_fail"))
         sub = dict(scope, vars=scope["vars"] + ([var] if it not in ("it_str", "'a:b'", "{'p': 1, 'q': 2}") else []), inloop=True)
         if use_loop:
             self.uses_loop = True
@@ -383,7 +383,7 @@ MODEL_PRELUDE = """
 def model(ctx, out, marks, LR, Stop, cur, nc, NL):
     a = ctx['a']; b = ctx['b']; c = ctx['c']
     it_list = ctx['it_list']; it_tuple = ctx['it_tuple']; it_str = ctx['it_str']; it_empty = ctx['it_empty']; it_one = ctx['it_one']
-    it_gen = ctx['it_gen']
+    it_gen = ctx['it_gen']; it_side = ctx['it_side']; it_fail = ctx['it_fail']
     acc = ctx['acc']
     STOP_RENDERING = ''
     LS = []
@@ -430,8 +430,23 @@ def make_ctx():
         yield 6
         yield 7
 
+    acc = []
+
+    def it_side():
+        # a lazy iterable whose production is observable: each item is noted when it is PULLED, so a loop that
+        # takes one item per iteration interleaves these notes with what its body notes
+        for k_ in (1, 2, 3):
+            acc.append("pull%d" % k_)
+            yield k_
+
+    def it_fail():
+        yield 1
+        acc.append("second-pulled")
+        yield 2
+        raise KeyError("third pull fails")
+
     return {"a": 2, "b": 0, "c": 5, "it_list": [1, 2, 3], "it_tuple": (4, 0), "it_str": "ab", "it_empty": [], "it_one": [9],
-            "it_gen": it_gen, "acc": [], "nc": contextlib.nullcontext}
+            "it_gen": it_gen, "it_side": it_side, "it_fail": it_fail, "acc": acc, "nc": contextlib.nullcontext}
 
 
 def run_one(text, src, res, rc, strictness=None):
